@@ -29,6 +29,10 @@ CORPUS = [
     T('c20-skyride-keeps-all-groups', CO, "            sufficient_statistics = torch.tensor(list(map(torch.sum, groups[:-1])))", "            sufficient_statistics = torch.tensor(list(map(torch.sum, groups)))",
       expect=[('C20.G', 'PiecewiseConstantCoalescent.sufficient_statistics::as-many-groups-as-thetas')]),
     T('c20-benign-matrix-order', GM, "        precision_matrix[..., range(1, dim - 1), range(1, dim - 1)] = 2.0 * precision", "        precision_matrix[..., range(1, dim - 1), range(1, dim - 1)] = precision * 2.0", benign=True),
+    Mut('c20-benign-arange-diagonal', 'torchtree/distributions/gmrf.py', '', "        precision_matrix[..., range(1, dim - 1), range(1, dim - 1)] = 2.0 * precision\n",
+        "        inner = torch.arange(1, dim - 1)\n        precision_matrix[..., inner, inner] = 2.0 * precision\n", benign=True, mode='text'),
+    Mut('c20-slice-fills-block', 'torchtree/distributions/gmrf.py', '', "        precision_matrix[..., range(1, dim - 1), range(1, dim - 1)] = 2.0 * precision\n",
+        "        precision_matrix[..., 1:-1, 1:-1] = 2.0 * precision.unsqueeze(-1)\n", expect=[('C20.Q', 'GMRF.precision_matrix::dim=5::quadratic-form')], mode='text'),
 ]
 for m in CORPUS:
     if m.id == 'c20-inner-range':
